@@ -633,6 +633,13 @@ BLANK_CORPUS: list[tuple[dict, tuple, int]] = [
     ({"t0": [("T", "["), ("B", "a", False, [("W", "if", [("T", " "), ("W", "for", [("Q", 0), _rq([])])])], None), ("T", "]")],
       "t1": [("E", "t0"), ("B", "b", False, [("T", "lb")], None)]}, ("wrap", [(False, "t1"), (True, "t1")]), 30),
     ({"t0": [("T", "["), ("B", "a", False, [_rq([])], None), ("T", "]")], "t1": [("E", "t0")]}, ("direct", "t1"), 30),
+    # an extends tag is never blank either: wrapped in if / for with whitespace around it
+    ({"t0": [("T", "["), ("B", "a", False, [("T", "ra")], None), ("T", "]")],
+      "t1": [("W", "if", [("T", " "), ("E", "t0"), ("T", " ")]), ("B", "a", False, [("T", "la")], None)]}, ("direct", "t1"), 30),
+    ({"t0": [("T", "["), ("B", "a", False, [("T", " ")], None), ("T", "]")],
+      "t1": [("W", "for", [("W", "if", [("E", "t0")])]), ("T", "x")]}, ("wrap", [(False, "t1"), (True, "t1")]), 30),
+    ({"t0": [("T", "["), ("B", "a", False, [("T", "ra")], None), ("T", "]")],
+      "t1": [("B", "c", False, [("Q", 0), ("E", "t0")], None), ("B", "a", False, [("T", "la")], None)]}, ("direct", "t1"), 30),
 ]
 
 
@@ -939,8 +946,9 @@ def main(chk: C.Check, build: C.Build) -> None:
         "tier_proved": "kernel (block stacks, chain walk, block/super rendering with both context limits)",
     })
     chk.assumptions += [
-        "templates are abstracted to text, block tags, {{ block.super }} and extends tags; text is never whitespace-only "
-        "(a whitespace-only block body is suppressed by the blank-block rule, outside this property)",
+        "templates are abstracted to text (visible or whitespace-only), block tags, {{ block.super }}, extends tags, silent tags "
+        "(assign / comment) and {% if true %} / {% for i in (1..1) %} wrappers; whitespace is space and newline; "
+        "suppress_blank_control_flow_blocks is a parameter of the model and of the specification",
         "a render starts in a context whose block stacks are empty (top-level render, or include/render from a template that is not itself inheriting)",
         "an extends tag met while a block body is rendered is summarised as ContextDepthError in the model (the code re-enters the chain without bound)",
         "CPython's recursion limit is not modelled: cases that end in RecursionError at the default limit are recorded and tied at context_depth_limit=8",
